@@ -5,6 +5,7 @@ import (
 	"encoding/json"
 	"flag"
 	"fmt"
+	"math"
 	"math/rand"
 	"os"
 	"sort"
@@ -62,31 +63,79 @@ var sklKeys = map[string][]string{
 	"adversarial": {"", "a", "a!", "a@", "a@1", "aa", "b"},
 }
 
-func sklKey(alpha string, k, ts int) string {
-	return types.KeyWithTs(sklKeys[alpha][k], uint64(ts))
+// version maps (monotone): model version i stands for sklTs[name][i]. "digits" crosses digit
+// counts (9 < 10, 99 < 100: numeric, not byte order), "huge" crosses 2^63.
+var sklTs = map[string][]uint64{
+	"digits": {0, 1, 2, 9, 10, 11, 99, 100, 101, 1000},
+	"huge":   {0, 1, 9, 10, 1 << 62, 1<<63 - 1, 1 << 63, 1<<63 + 1, math.MaxUint64 - 1, math.MaxUint64},
 }
-func sklVal(v int) []byte { return []byte(fmt.Sprintf("value-%d", v)) }
+
+// an alphabet name is "<keys>" or "<keys>:<version map>"
+func splitAlpha(alpha string) (string, []uint64) {
+	if i := strings.IndexByte(alpha, ':'); i >= 0 {
+		return alpha[:i], sklTs[alpha[i+1:]]
+	}
+	return alpha, nil
+}
+
+func sklKey(alpha string, k, ts int) string {
+	base, tm := splitAlpha(alpha)
+	if tm != nil {
+		return types.KeyWithTs(sklKeys[base][k], tm[ts])
+	}
+	return types.KeyWithTs(sklKeys[base][k], uint64(ts))
+}
+
+// sklPool hands out values that are sub-slices of ONE buffer (as a caller that carves values out
+// of a read buffer does): the list must never write into a value it was given.
+type sklPool struct{ buf []byte }
+
+func newSklPool() *sklPool {
+	p := &sklPool{}
+	for v := 1; v <= 9; v++ {
+		p.buf = append(p.buf, fmt.Sprintf("value-%d", v)...)
+	}
+	return p
+}
+
+func (p *sklPool) val(v int) []byte {
+	if v < 1 || v > 9 {
+		return []byte(fmt.Sprintf("value-%d", v))
+	}
+	return p.buf[7*(v-1) : 7*v]
+}
 
 func cellOf(alpha string, e types.Entry) SklCell {
 	if !strings.Contains(e.Key, "@") {
 		return SklCell{K: -1, Ts: -1, V: -1}
 	}
 	uk := types.ParseKey(e.Key)
+	base, tm := splitAlpha(alpha)
 	k := -1
-	for i, s := range sklKeys[alpha] {
+	for i, s := range sklKeys[base] {
 		if i > 0 && s == uk {
 			k = i
 		}
 	}
 	v := -1
 	fmt.Sscanf(string(e.Value), "value-%d", &v)
-	return SklCell{K: k, Ts: int(types.ParseTs(e.Key)), V: v, Tomb: e.Tombstone}
+	ts := int(types.ParseTs(e.Key))
+	if tm != nil {
+		ts = -1
+		for i, x := range tm {
+			if x == types.ParseTs(e.Key) {
+				ts = i
+			}
+		}
+	}
+	return SklCell{K: k, Ts: ts, V: v, Tomb: e.Tombstone}
 }
 
 // replayOne builds the structure by replaying the path on a real skiplist with scripted tower
 // heights and compares towers and every read API with the expectation exported by TLC.
 func replayOne(r SklReplay, maxLevel int, alpha string, K, T int) string {
 	src := &scripted{}
+	pool := newSklPool()
 	s := skiplist.New(maxLevel, 0.5)
 	s.VerifSetRandSource(src)
 	for _, op := range r.Path {
@@ -94,7 +143,7 @@ func replayOne(r SklReplay, maxLevel int, alpha string, K, T int) string {
 		if op.Op == "set" {
 			src.q = nil
 			src.height(op.H)
-			s.Set(types.Entry{Key: key, Value: sklVal(op.V), Tombstone: op.Tomb, Version: int64(op.Ts)})
+			s.Set(types.Entry{Key: key, Value: pool.val(op.V), Tombstone: op.Tomb, Version: int64(op.Ts)})
 		} else {
 			s.Delete(key)
 		}
@@ -209,8 +258,9 @@ func checksum(alpha string, es []types.Entry) int {
 func randomSkl(r *rand.Rand, nops int) ([]SmEvent, map[string]any) {
 	maxLevel := pick(r, 1, 2, 3, 5, 9, 12)
 	p := pick(r, 0.01, 0.25, 0.5, 0.9, 0.99)
-	alpha := pick(r, "plain", "adversarial")
+	alpha := pick(r, "plain", "adversarial") + pick(r, "", ":digits", ":huge")
 	K, T := 2+r.Intn(4), 2+r.Intn(5)
+	pool := newSklPool()
 	s := skiplist.New(maxLevel, p)
 	var ev []SmEvent
 	for i := 0; i < nops; i++ {
@@ -219,7 +269,7 @@ func randomSkl(r *rand.Rand, nops int) ([]SmEvent, map[string]any) {
 		switch x := r.Intn(20); {
 		case x < 9:
 			v, tomb := 1+r.Intn(9), r.Intn(4) == 0
-			s.Set(types.Entry{Key: key, Value: sklVal(v), Tombstone: tomb, Version: int64(ts)})
+			s.Set(types.Entry{Key: key, Value: pool.val(v), Tombstone: tomb, Version: int64(ts)})
 			ev = append(ev, SmEvent{Ev: "Set", K: k, Ts: ts, V: v, Tomb: tomb})
 		case x < 11:
 			ok := s.Delete(key)
@@ -284,7 +334,7 @@ func cmdSkl(args []string) int {
 				fmt.Fprintln(os.Stderr, "bad replay line:", err)
 				return 2
 			}
-			for _, alpha := range []string{"plain", "adversarial"} {
+			for _, alpha := range []string{"plain", "adversarial:digits", "adversarial:huge"} {
 				total++
 				if msg := replayOne(rp, *maxLevel, alpha, *K, *T); msg != "" && len(bad) < 20 {
 					bad = append(bad, map[string]any{"alphabet": alpha, "replay": rp, "mismatch": msg})
